@@ -311,6 +311,12 @@ func msmSweepReplayer(prop string, ob *Obligation, cfg string, dir string) (bool
 	return ok, desc, firstLines(out, 3)
 }
 
+func scalarmultSweepReplayer(prop string, ob *Obligation, cfg string, dir string) (bool, string, string) {
+	ok, out := sweepReplay("scalarmult_sweep_test.go.tmpl", "TestVerifScalarmultSweep", "internal/ge25519", cfg, dir)
+	desc := fmt.Sprintf("%s: counterexample to \"%s\" (%s); confirmed on the real scalar multiplications: %s", ob.Harness, ob.Msg, ob.Pos, firstLines(out, 5))
+	return ok, desc, firstLines(out, 3)
+}
+
 // fallbackSweepReplayer runs all-valid batches under a coverage profile and reports whether the fallback block
 // of VerifyBatch was executed.
 func fallbackSweepReplayer(prop string, ob *Obligation, cfg string, dir string) (bool, string, string) {
@@ -381,6 +387,9 @@ func init() {
 	}
 	for _, p := range []string{"vh_C17_multiScalarmult", "vh_C17_bosCoster"} {
 		customReplayers[p] = msmSweepReplayer
+	}
+	for _, p := range []string{"vh_C16_NielsBase", "vh_C16_nielsSliding", "vh_C16_basepoint", "vh_C16_ScalarmultBase", "vh_C16_DoubleScalarmult"} {
+		customReplayers[p] = scalarmultSweepReplayer
 	}
 	for _, p := range []string{"vh_C11_", "vh_C12_", "vh_C13_X25519"} {
 		customReplayers[p] = x25519SweepReplayer
